@@ -203,6 +203,12 @@ class CacheWorld:
             elif isinstance(st, ast.AnnAssign) and isinstance(st.target, ast.Name) and st.value is not None:
                 top_consts[st.target.id] = st.value
 
+        # standard-library modules / names the module imports (itertools, functools, operator, collections ..): the models of
+        # program.Program
+        from .program import Program
+
+        _prog = Program(repo, types_env, primary="pipe.cache")
+
         def resolve(name):
             if name in top_defs:
                 self.env[name] = Func(top_defs[name], self.env, self.it)
@@ -210,6 +216,18 @@ class CacheWorld:
             if name in top_consts:
                 self.env[name] = self.it.ev(top_consts[name], self.env)
                 return self.env[name]
+            tgt = self.mod.imports.get(name)
+            if tgt and not tgt.startswith("pydiverse"):
+                root = tgt.split(".")[0]
+                try:
+                    if tgt == root or "." not in tgt:
+                        self.env[name] = _prog.stdlib_module(root)
+                    else:
+                        base, attr = tgt.rsplit(".", 1)
+                        self.env[name] = _prog.stdlib(base, attr, name)
+                    return self.env[name]
+                except KeyError:
+                    pass
             raise KeyError(name)
 
         self.it.global_resolver = resolve
